@@ -128,6 +128,11 @@ impl CheckInternal for fol::Formula {
                         }
                     }
 
+                    // check the terms of the atom are distinct variables
+                    if terms_as_vars.len() < a.terms.len() {
+                        return Err(ProofOutlineError::DuplicatedVariables(self.clone()));
+                    }
+
                     // Check variables in quantifications are the same as the terms in the atom
                     if uniques != terms_as_vars {
                         return Err(ProofOutlineError::DefinedPredicateVariableListMismatch(
